@@ -90,7 +90,7 @@ class WaiterTimeoutTick:
 # ----------------------------------------------------------------------------------------------
 @contract("workflows.runtime.control_loop.rewind_in_progress")
 class Rewind:
-    properties = ["C01", "C03", "C11", "C12"]
+    properties = ["C01", "C03", "C05", "C11", "C12"]
     raises = []
 
     def requires(state, now_seconds):
